@@ -18,8 +18,8 @@ from ref.models_sync import SemaphoreModel, PENDING, OK
 
 ID = "C33"
 LEVEL = "exploration"
-QUICK_N = 48000
-THOROUGH_N = 1200000
+QUICK_N = 40000
+THOROUGH_N = 1600000
 CHUNK = 500
 RULE = ("gen(seed): object kind (Semaphore(n)/BoundedSemaphore(n)/Lock, n in 0..3), 3..24 ops "
         "(acquire [abs deadline | timedelta | zero | past], async-with enter/exit, release "
@@ -307,7 +307,8 @@ def run(scn, full_log=False):
             ep = [{"op": "nop", "gap": ["adv", max(1, (dls[-1] - rig.now() + 1) if dls else 1)]}]
             await R.drive(rig, ep, do_op)
             k = 0
-            while model.queue and not viol and k < 200:
+            while (model.queue and not viol and k < 200
+                   and (kind == "sem" or model.value < model.initial)):
                 k += 1
                 await R.drive(rig, [{"op": "rel", "gap": [("none", "yield", "idle")[k % 3]]}], do_op)
             if viol:
